@@ -73,8 +73,9 @@ Proof.
   destruct ph; cbn.
   - intros _. destruct (pol c); [|destruct (try_send c x)..]; intros H; inversion H; subst; cbn; auto.
   - unfold send_block. destruct (try_send c x); discriminate.
-  - intros [E|Hok]; [discriminate|]. destruct (try_recv c). intros H; inversion H; subst.
-    destruct (pol c); cbn in *; try discriminate; auto.
+  - intros [E|Hok]; [discriminate|].
+    destruct (pol c) eqn:PC; cbn in *; try discriminate; try contradiction.
+    destruct (try_recv c). intros H; inversion H; subst. auto.
   - destruct (try_send c x); discriminate.
 Qed.
 
@@ -111,7 +112,7 @@ Proof.
   unfold inv_q_lists, emits, upd_metrics, set_dq, set_hist, set_metrics. cbn [w_hist w_dq].
   unfold enqs, deqs, drops, rejects in *. rewrite !flat_map_app.
   split; [congruence|].
-  apply send_phase_contents in E. destruct E as [(Q & -> & ->)|[(old & Q & -> & -> & ->)|(Q & NT & D)]].
+  apply send_phase_contents in E. destruct E as [(Q & -> & ->)|[(old & Q & -> & -> & -> & PO)|(Q & NT & D)]].
   - (* the item was appended *)
     rewrite Q, acts_app, rev_app_distr. destruct x as [a|]; cbn.
     + split; [now apply perm_skip|split; [now apply subseq_take|exact BLK]].
@@ -142,7 +143,12 @@ Proof.
     intros H; injection H as <- <-. intros I. split; [|reflexivity].
     unfold inv_q_lists, emits, upd_metrics, set_chan, set_chans, set_hist, set_metrics in *. cbn [w_hist w_dq] in *.
     unfold enqs, deqs, drops, rejects in *. rewrite !flat_map_app.
-    rewrite !(proj_subdrop _ sid dr) by reflexivity. exact I.
+    assert (Z : forall {X} (f : event -> list X), (forall s, f (ESubDrop s) = []) -> (forall s a, f (ESubSend s a) = []) ->
+                flat_map f (rev (sub_events sid x sr' dr)) = []).
+    { intros X f H1 H2. unfold sub_events. rewrite rev_app_distr, flat_map_app.
+      rewrite (proj_subdrop f sid dr) by exact H1. rewrite app_nil_r.
+      destruct sr' as [?|[|]]; [|destruct x as [[s0 a0]|]|]; cbn; rewrite ?H2; reflexivity. }
+    rewrite !Z by reflexivity. exact I.
   - intros H; injection H as <- <-. auto.
 Qed.
 
@@ -161,10 +167,10 @@ Ltac q_phases T :=
 
 Ltac simp_lists :=
   unfold inv_q_lists, enqs, deqs, drops, rejects in *; simp_world; unfold cb_events;
-  repeat first [ rewrite flat_map_app | rewrite (proj_cb ev_enq) by reflexivity
+  repeat (progress (repeat first [ rewrite flat_map_app | rewrite (proj_cb ev_enq) by reflexivity
                | rewrite (proj_cb ev_deq) by reflexivity | rewrite (proj_cb ev_drop) by reflexivity
                | rewrite (proj_cb ev_reject) by reflexivity ];
-  cbn [flat_map ev_enq ev_deq ev_drop ev_reject app q pol disconnect].
+  cbn [flat_map ev_enq ev_deq ev_drop ev_reject app q pol disconnect])).
 
 Ltac solve_threads T :=
   simp_world;
